@@ -375,6 +375,20 @@ impl Machine {
                 let m = key.encrypt_with_digest(self.env(other)?.tagged_cbor().to_cbor_data(), self.env(e)?.digest().into_owned(), Some(nonce));
                 res(Envelope::try_from(m))
             }
+            ["miscompress_perm", e, kind] | ["misdeclare_perm", e, kind, ..] => {
+                // the element's own content declared under a permutation of its digest's bytes (same bytes, same sum, same xor)
+                let e = self.env(e)?;
+                let mut d = e.digest().data().to_vec();
+                match *kind { "swap" => d.swap(0, 1), "rot" => d.rotate_left(1), "rev" => d.reverse(), "swapfar" => d.swap(3, 29), _ => return None }
+                if d == e.digest().data() { d.swap(0, 31); if d == e.digest().data() { return Some(Val::Err("degenerate-digest".into())); } }
+                let dg = Digest::from_data_ref(&d).ok()?;
+                if a[0] == "miscompress_perm" { res(Envelope::try_from(bc_components::Compressed::from_uncompressed_data(e.tagged_cbor().to_cbor_data(), Some(dg)))) }
+                else {
+                    let key = SymmetricKey::from_data_ref(hex::decode(a[3]).ok()?).ok()?;
+                    let nonce = Nonce::from_data_ref(hex::decode(a[4]).ok()?).ok()?;
+                    res(Envelope::try_from(key.encrypt_with_digest(e.tagged_cbor().to_cbor_data(), dg, Some(nonce))))
+                }
+            }
             ["miscompress_near", e, k] => {
                 // the element's own content, declared under its digest with one byte flipped
                 let e = self.env(e)?; let k: usize = k.parse().ok()?;
